@@ -91,7 +91,7 @@ def extract_function(f, yp, outputs, bdd):
             p, n = pz, nz
     # restrict
     care = (p & ~ n) | (n & ~ p)
-    if _bdd is None:
+    if _bdd is None or not isinstance(bdd, _bdd.BDD):
         g = p
     else:
         g = _bdd.restrict(p, care)
